@@ -93,7 +93,14 @@ def check(run):
     add("prove_req", full + b"trailing")
     # a caller whose output takes nothing / whose reader fails after delivering the request: an error (never a crash, never a
     # half-written message), and the next ordinary request proves as before
-    seqs.append(setup + [f"rln io w prove_req {hx(full)}", f"rln io r prove_req {hx(full)}", f"rln prove_req {hx(full)}", "rln root", "rln leaves_set"])
+    seqs.append(setup + [f"rln io w prove_req {hx(full)}", f"rln io r prove_req {hx(full)}", f"rln prove_req {hx(full)}", "rln root", "rln leaves_set",
+                         "rln chunk 0xd", f"rln prove_req {hx(full)}", "rln chunk 0x0"])         # and from a reader that delivers 13 bytes at a time
+    # ---- the same member proves again after the tree changed around it (every mutator, incl. batch removals of OTHER members):
+    #      whatever the prover remembers from its first run must not make the second message unverifiable
+    for mu in ["rln atomic 0x0 - 0x5,0x6", "rln atomic 0x8 - 0x7", "rln set_leaf 0x5 0x77", "rln delete 0x7", "rln set_leaves_from 0x8 0x1,0x2"][: (3 if quick else 5)]:
+        hist = M.setup([(i, rand_fr(rng)) for i in range(0, 8) if i != index])
+        hist += [f"rln prove_verify {hx(req(mid=1))} {hx(sig)}", mu, "rln root", f"rln prove_verify {hx(req(mid=2))} {hx(sig)}", f"rln get_proof {hex(index)}"]
+        seqs.append(hist)
     # ---- witness entry points
     x = rand_fr(rng)
 
